@@ -143,6 +143,9 @@ func frameBytesF(f []any, tag func(sid uint32) string, trailer bool, front bool)
 		if front && !trailer {
 			fs = append(fs, h2raw.HF{"x-vf-front", "1"})
 		}
+		if kind == "clsmall" && !trailer {
+			fs = append(fs, h2raw.HF{"content-length", "1"}) // less than any DATA frame of the alphabet carries
+		}
 		if kind == "clbig" && !trailer {
 			fs = append(fs, h2raw.HF{"content-length", "100"}) // more than this alphabet ever sends: END_STREAM arrives short
 		}
@@ -155,6 +158,8 @@ func frameBytesF(f []any, tag func(sid uint32) string, trailer bool, front bool)
 			return h2raw.SettingsAck()
 		case "bad":
 			return h2raw.Settings(h2raw.Setting{ID: 2, Val: 2})
+		case "badwin":
+			return h2raw.Settings(h2raw.Setting{ID: 4, Val: 1 << 31})
 		}
 		return h2raw.Settings(h2raw.Setting{ID: 3, Val: 100})
 	case "HEADERS":
@@ -333,7 +338,7 @@ func runPath(st *stack.Stack, g *gated, p Path) PathObs {
 	}
 	front := false // see gated.front
 	for _, s0 := range p.Steps {
-		if s0.Frame != nil && len(s0.Frame) > 4 && s0.Frame[4] == "clbig" {
+		if s0.Frame != nil && len(s0.Frame) > 4 && (s0.Frame[4] == "clbig" || s0.Frame[4] == "clsmall") {
 			front = true
 		}
 	}
@@ -481,6 +486,9 @@ func main() {
 	g := &gated{arrived: map[string]bool{}, gates: map[string]chan struct{}{}}
 	st, err := stack.Start(stack.Options{BackendHandler: g, MutateServer: func(s *proxyserver.Server) {
 		s.HTTP2Server.MaxConcurrentStreams = 2
+		if v, err := strconv.Atoi(os.Getenv("VF_ADVMAX")); err == nil && v > 0 {
+			s.HTTP2Server.MaxConcurrentStreams = uint32(v) // the specification's AdvMax
+		}
 		s.HTTPServer.Handler = g.front(s.HTTPServer.Handler)
 	}})
 	if err != nil {
